@@ -266,4 +266,6 @@ def main():
 
 
 if __name__ == "__main__":
-    main()
+    from tools.harness._common import run
+
+    run(main)
